@@ -147,11 +147,51 @@ class TokState:
             return True
         return False
 
+    def _flag_test(self, f, node):
+        """`flag = <token>.is_a(X)` ... `if flag`: the test the flag stands
+        for, while the token has not been consumed since the binding and the
+        flag has exactly that one binding."""
+        e = node.ast
+        if not isinstance(e, ast.Name):
+            return None
+        binds = [n for n in ast.walk(f.node) if isinstance(n, ast.Assign)
+                 and any(isinstance(t, ast.Name) and t.id == e.id
+                         for t in n.targets)]
+        others = [n for n in ast.walk(f.node)
+                  if isinstance(n, (ast.AugAssign, ast.For, ast.NamedExpr))
+                  and any(isinstance(x, ast.Name) and x.id == e.id
+                          and isinstance(x.ctx, ast.Store) for x in ast.walk(n))]
+        if len(binds) != 1 or others or e.id in f.params:
+            return None
+        v = binds[0].value
+        if not (isinstance(v, ast.Call) and isinstance(v.func, ast.Attribute)
+                and v.func.attr in ('is_a', 'is_any')
+                and norm(v.func.value) in TOKEN_EXPRS):
+            return None
+        cfg = self.A.cfg(f)
+        defs = [n for n in cfg.nodes if n.kind == 'stmt' and n.ast is binds[0]]
+        if not defs:
+            return None
+        adv = [n for n in cfg.nodes if self.node_advances(f, n)]
+        for d in defs:
+            after = cfg.reachable_from([m for m, _l in d.succs])
+            for a in adv:
+                if a in after and node in cfg.reachable_from(
+                        [m for m, _l in a.succs]):
+                    return None
+        vals = [self.A.try_fold(a, f) for a in v.args]
+        if vals and all(isinstance(x, K.EnumVal) for x in vals):
+            return frozenset(x.member for x in vals), True
+        return None
+
     def test_of(self, f, node):
         """(member set, truth-means-member) for a cond node that tests the
         current token's type, else None."""
         A = self.A
         e = node.ast
+        flag = self._flag_test(f, node)
+        if flag is not None:
+            return flag
         if isinstance(e, ast.Call) and isinstance(e.func, ast.Attribute) \
                 and e.func.attr in ('is_a', 'is_any') \
                 and self._is_token(f, e.func.value, node):
